@@ -1,5 +1,5 @@
 (* C02 - Jerk (T3) move prediction equals the third-order firmware recurrence.  Statements only. *)
-From Plotink Require Import Base.Prelude Spec.Firmware Model.EbbCalc Proofs.EbbCalcProofs Proofs.EbbClosed Corr.C02.
+From Plotink Require Import Base.Prelude Spec.Firmware Model.EbbCalc Model.EbbCalcRnd Proofs.EbbCalcProofs Proofs.EbbRndProofs Proofs.EbbClosed Corr.C02.
 Open Scope Z_scope.
 
 Theorem C02_exact_dist : forall (T : nat) rate accel jerk acc0, (1 <= T)%nat ->
@@ -24,6 +24,20 @@ Theorem C02_checker_is_spec : forall (T : nat) rate accel jerk acc0,
   ((1 <= T)%nat -> t3_rate_closed (Z.of_nat T) rate accel jerk = t3_spec_rate T rate accel jerk).
 Proof. exact t3_closed_spec. Qed.
 
+(* the arithmetic the code really runs: every mpmath operation of move_dist_t3 followed by a rounding to 103 bits.  The division by 6
+   is inexact, so an error is carried to the final round(); for ANY rounding operator that respects ==, leaves 103-bit numbers
+   unchanged and has relative error at most 2^-102 (round to nearest has 2^-103), that error is at most 1/4 on the domain
+   (|rate| <= 2^33, |accel|, |jerk| <= 2^32, T <= 2^32, |jerk| T <= 2^33 - the acceleration stays in range -, accumulator in [0, 2^31)),
+   the exact total is an integer, the snap test takes the same branch, and the rounded computation equals the exact one *)
+Theorem C02_rounding : forall rnd : Q -> Q,
+  (forall x y, (x == y)%Q -> (rnd x == rnd y)%Q) -> (forall x, rep103 x -> (rnd x == x)%Q) ->
+  (forall x, (Qabs (rnd x - x) <= eps103 * Qabs x)%Q) ->
+  forall (T : nat) rate accel jerk accum, (1 <= T)%nat ->
+  Z.abs rate <= 2 ^ 33 -> Z.abs accel <= 2 ^ 32 -> Z.abs jerk <= 2 ^ 32 -> Z.of_nat T <= 2 ^ 32 -> Z.abs jerk * Z.of_nat T <= 2 ^ 33 ->
+  match accum with Some c => 0 <= c < 2 ^ 31 | None => True end ->
+  move_dist_t3_r rnd (Z.of_nat T) rate accel jerk accum = move_dist_t3 (Z.of_nat T) rate accel jerk accum.
+Proof. exact move_dist_t3_rounding. Qed.
+
 (* non-vacuity: negative jerk not divisible by 6, odd accel, first two tick rates zero -> cleared to 2^31-1 *)
 Example C02_example : t3_spec_dist 7 (-3) 5 (-7) None = (0, 2147483353) /\ move_dist_t3 7 (-3) 5 (-7) None = (0, 2147483353)
   /\ t3_spec_rate 7 (-3) 5 (-7) = -118 /\ t3_spec_dist 4 0 1 (-1) None = (0, 0).
@@ -34,3 +48,4 @@ Print Assumptions C02_exact_rate.
 Print Assumptions C02_closed_form.
 Print Assumptions C02_zero_jerk.
 Print Assumptions C02_checker_is_spec.
+Print Assumptions C02_rounding.
